@@ -90,7 +90,7 @@ SPEC = {
         "a bare Queue is the same heap and the same Poll: consumers looping over Poll are the model's workers without callbacks; "
         "Poll(false) differs from Poll(true) only on the empty queue (returns the zero value at once) - it too waits for the "
         "time of the element it popped; direct Queue sessions are tied by the qseq lines (model's add/cancelElem/Heap.pop) and "
-        "by okLog on qsess traces. NOT modelled: ScheduledTask.Cancel() called directly on a TaskExecutor task; Executor.Shutdown "
+        "by okLog on qsess traces. NOT modelled: Executor.Shutdown "
         "called from inside a callback; callbacks that never return; time.Time wall-clock jumps",
         "liveness is stated as absence of stuck configurations (some executor goroutine can step or waits only for the clock / "
         "the harness), not as a fairness-based eventuality"],
@@ -123,5 +123,5 @@ SPEC = {
     },
     "assumptions": ["callbacks terminate unless the harness blocks them (progress theorem excuses goroutines waiting for the harness)",
                     "at least one worker goroutine (progress theorem)",
-                    "TaskExecutor tasks are cancelled through Cancel(id), not through their ScheduledTask handle"],
+                    ],
 }
